@@ -246,7 +246,7 @@ func (mc *modelCase) compare(c *fw.Case, m *refmodel.Model, rs *jsonschema.Resol
 			mc.witness(map[string]any{"instance": json.RawMessage(itext), "library_valid": got, "model_valid": want, "py_checkable": true}))
 		return want, true
 	}
-	if c.R.IntN(6) == 0 {
+	if c.R.IntN(3) == 0 {
 		// the same instance as a Decoder.UseNumber program sees it: numbers as json.Number, in another lexical form of the same
 		// value (10e-1, 1.0, 5E-1 ...). The validity relation is about JSON VALUES, so the verdict must be the same.
 		alt := gen.Respell(c.R, gen.Parse(itext))
